@@ -62,7 +62,12 @@ def write_project(root, targets, inside=False, loc="none", kind="semantic", extr
             if f.endswith(".yml"):
                 os.remove(os.path.join(pd, f))
         os.makedirs(pd, exist_ok=True)
-        man = "namespace: %s\n" % spec["ns"]
+        ns = spec["ns"]
+        if loc == "reserved_namespace" and ns == "Main":
+            ns = "Yardl"
+        if loc == "import_reserved_namespace" and ns == "Imp2":
+            ns = "Yardl"
+        man = "namespace: %s\n" % ns
         if spec.get("imports"):
             man += "imports:\n" + "".join("  - %s\n" % i for i in spec["imports"])
         if spec.get("versions"):
@@ -87,6 +92,8 @@ def write_project(root, targets, inside=False, loc="none", kind="semantic", extr
         if not uses:
             # importers do not reference anything of what they import
             model = model.replace("    b: Imp1.T1\n", "    b: int\n").replace("    x: Imp2.T2\n", "    x: int\n")
+        if loc == "import_reserved_namespace":
+            model = model.replace("Imp2.", "Yardl.")
         if d == "main":
             model += extra_main_model
         if LOC_DIR.get(loc) == d:
